@@ -52,20 +52,20 @@ type SD struct {
 
 // Stream is the harness side of one stream object handed out by the factory.
 type Stream struct {
-	ID        int
-	Dir0      int // direction of the packet that created it
+	ID   int
+	Dir0 int // direction of the packet that created it
 	// LastFedAt: capture time of the most recent packet fed to the connection
 	// this stream belongs to (valid if HasFed); EndedInCall: an end-of-stream
 	// delivery reached it during the call in progress
 	LastFedAt   int64
 	HasFed      bool
 	EndedInCall int32
-	Bidir     bool
-	Completed int
-	Removed   bool // completion answered "remove"
-	sd        map[int]*SD
-	Inside    bool
-	Callbacks int
+	Bidir       bool
+	Completed   int
+	Removed     bool // completion answered "remove"
+	sd          map[int]*SD
+	Inside      bool
+	Callbacks   int
 }
 
 // Harness owns the model for one run.
